@@ -120,7 +120,7 @@ func oracleC10(v *View, vd *Verdict) {
 			continue
 		}
 		vd.Trigger = true
-		deadline := lastConnectT + connectTimeout + pollInterval + timingSlack
+		deadline := lastConnectT + connectTimeout + pollInterval + slack(v)
 		lab := strings.Join(label, ",")
 		if sv.EndT < 0 || sv.EndT > deadline {
 			vd.Add("C10", "C10/half-open-session-not-reaped/"+lab, "session %s: last CONNECT at %d, no broker CONNACK, session end at %d (deadline %d)", sv.Name, lastConnectT, sv.EndT, deadline)
@@ -235,7 +235,7 @@ func oracleC13(v *View, vd *Verdict) {
 		}
 		vd.Trigger = true
 		lab := fmt.Sprintf("cause=%s,state=%s", c.kind, st.st)
-		deadline := c.t + pollInterval + timingSlack
+		deadline := c.t + pollInterval + slack(v)
 		if sv.EndT < 0 || sv.EndT > deadline {
 			vd.Add("C13", "C13/no-session-end/"+lab, "session %s: %s at %d, session end at %d (deadline %d)", sv.Name, c.kind, c.t, sv.EndT, deadline)
 		}
@@ -460,7 +460,7 @@ func oracleC34(v *View, vd *Verdict) {
 			}
 			// retransmissions towards the client never reach the broker, so they do not extend the bound
 		}
-		deadline += 2*pollInterval + timingSlack
+		deadline += 2*pollInterval + slack(v)
 		if sv.EndT < 0 || sv.EndT > deadline {
 			vd.Add("C34", "C34/session-not-reaped/"+lab, "session %s: client silent since %d (state %s, keep-alive %ds, sleep %ds), session end %d, deadline %d", sv.Name, lastC2G, w.st, w.ka, w.sleepDur, sv.EndT, deadline)
 		}
@@ -517,3 +517,8 @@ func init() {
 		Rule:   "the C13 session scripts cut at a seeded event index after which the peer is silent forever; broker model enforces keep-alive (drops after 1.5 x KA without a packet) and drops connections without CONNECT after 5 s; keep-alive 3-12 s, sleeps 1-25 s; deadline by state: accept+5 s / last CONNECT+5 s before connecting, last activity + 1.5 KA active/awake, + announced sleep asleep, + 200 ms poll + 3 ms; non-trivial = every session",
 		Gen:    genC34, Oracle: oracleC34, Quick: 420, Thorough: 14000})
 }
+
+// slack: the fixed timing tolerance plus the virtual time this run's scheduler let pass while
+// goroutines were parked (slow node, SchedCfg.StallProb): a deadline can be late by that much
+// through no fault of the code.
+func slack(v *View) int64 { return timingSlack + v.R.StalledNs }
